@@ -14,9 +14,17 @@
     IF -1 THEN ... END IF.  Not proved (decided by the implementation-vs-implementation runs and
     the per-program check against [Sem] only): FOR as WHILE (needs temporaries), SELECT CASE as an
     IF chain, FOR ... STEP 1 for non-INTEGER counters; the single-line IF is the same syntax tree
-    as the block IF in the model. *)
+    as the block IF in the model.
+
+    "Regardless of what encloses it or what it encloses", on the code that is executed:
+    [C02_enclosing_code_is_irrelevant] - the validated code of a statement, standing at any address
+    of any instruction list, under any registers, any stack of register frames (so inside any number
+    of FOR bodies), any value stack (inside any SELECT CASE) and any variable-path stack, does what
+    the statement alone does; [C02_enclosed_blocks_compose] - the same for the blocks it encloses.
+    The validator is evaluated on the real instruction list of every generated program (C01). *)
 From Coq Require Import List ZArith Bool Floats.SpecFloat.
-From RB Require Import Generated.Tables Val.Variant Val.Arith2 Lang.Ast Lang.Sem Lang.Rewrites RT.Printer.
+From RB Require Import Generated.Tables Val.Variant Val.Arith2 Lang.Ast Lang.Sem Lang.Rewrites RT.Printer
+                       VM.Instr VM.Machine VM.GenProofs VM.Loops VM.Validate VM.ValidateProofs.
 Import ListNotations.
 
 Section AnyNumberText.
@@ -44,6 +52,22 @@ Proof. exact (for_default_step_is_one num_text is_negative). Qed.
 Theorem C02_block_in_if_true : forall f p q body st,
   exec (S f) (SIf p (ELit q (VInteger (-1))) body [] None) st = block num_text is_negative f body st.
 Proof. exact (if_true_wrap num_text is_negative). Qed.
+(** a statement's code behaves the same wherever it stands and whatever surrounds it at run time *)
+Theorem C02_enclosing_code_is_irrelevant : forall k code pc s len, check_stmt k code pc s = Some len ->
+  forall f st r t vs ps,
+    match exec f s st with
+    | Done st' => exists n r', GenProofs.stepn num_text is_negative n code (boundary pc r t vs ps st)
+                   = MRunning (boundary (pc + len) r' t vs ps st')
+    | Failed x q st' => exists n s', GenProofs.stepn num_text is_negative n code (boundary pc r t vs ps st) = MError x q s' /\ of_mio (mscreen s') = screen st'
+    | StepZero q st' => exists n s', GenProofs.stepn num_text is_negative n code (boundary pc r t vs ps st) = MStepZero q s' /\ of_mio (mscreen s') = screen st'
+    | OutOfFuel => True
+    end.
+Proof. intros k code pc s len H f. exact (check_stmt_sound num_text is_negative k code pc s len H f). Qed.
+
+(** and so do the blocks it encloses *)
+Theorem C02_enclosed_blocks_compose : forall k code l pc n, Validate.check_block k code l pc = Some n ->
+  forall f, Loops.simulates num_text is_negative code pc n (Loops.blockf num_text is_negative f l).
+Proof. exact (check_block_sound num_text is_negative). Qed.
 End AnyNumberText.
 
 (** non-vacuity: a comparison qualifies *)
@@ -55,3 +79,5 @@ Print Assumptions C02_do_until_as_do_while_not.
 Print Assumptions C02_comparisons_qualify.
 Print Assumptions C02_for_default_step_is_one.
 Print Assumptions C02_block_in_if_true.
+Print Assumptions C02_enclosing_code_is_irrelevant.
+Print Assumptions C02_enclosed_blocks_compose.
